@@ -1259,3 +1259,39 @@ M("C08-idle-returned-from-wait", "C08", [(DRIVE, '''                Progress::Ad
 ALL19 = ["C%02d" % i for i in range(1, 21) if i != 16]
 for _r in ("R1", "R2", "R3", "R4", "R5", "R6"):
     RF("RF-agent-%s" % _r, ALL19, [("@patch", "selftest/refactors/%s.diff" % _r, "")])
+
+# ---------------------------------------------------------------------------------------------- mutants on top of a refactoring
+# the normal form must not hide a defect that sits inside an extracted helper (each entry = R1 + one break)
+_R1 = ("@patch", "selftest/refactors/R1.diff", "")
+M("N1-helper-guard-inverted", ["C11"], [_R1, (OPS, '''        if self.live {
+            Ok(())
+        } else {
+            Err(Error::Disconnected)
+        }''', '''        if !self.live {
+            Ok(())
+        } else {
+            Err(Error::Disconnected)
+        }''')], ["C11/entry/subscribe"])
+M("N2-helper-drain-after-alloc", ["C05", "C01"], [_R1, (OPS, '''        self.flush_outbound().await?;
+        self.require_retained_slot()?;
+
+        let packet_id = self.session.data.next_packet_id();
+        let packet = build_packet(packet_id);''', '''        self.require_retained_slot()?;
+
+        let packet_id = self.session.data.next_packet_id();
+        self.flush_outbound().await?;
+        let packet = build_packet(packet_id);''')], ["C05/replay-first/subscribe"])
+M("N3-helper-size-check-dropped", ["C14"], [_R1, (OPS, '''        let (offset, len) = self.session.data.outbound.encode_packet(&packet)?;
+        self.session.runtime.require_packet_size(len)?;
+        self.session''', '''        let (offset, len) = self.session.data.outbound.encode_packet(&packet)?;
+        self.session''')], ["C14/tx/enqueue/subscribe"])
+M("N4-helper-write-before-enqueue", ["C02", "C13"], [_R1, (OPS, '''        self.session.runtime.require_packet_size(len)?;
+        self.session
+            .data
+            .outbound
+            .retain_packet(packet_id, offset, len)?;''', '''        self.session.runtime.require_packet_size(len)?;
+        self.flush_outbound().await?;
+        self.session
+            .data
+            .outbound
+            .retain_packet(packet_id, offset, len)?;''')], ["C13/atomic/subscribe"])
